@@ -74,7 +74,7 @@ theorem step_total (o : Opts) (w : World) (plan) (s : MainStep) (st : St)
     split
     · obtain ⟨st', h1, _⟩ := cleanLoop_spec w.charSigned
         ((w.listing st.inOut).filter (globMatch globPattern)) (st.emit (.glob st.inOut globPatternString))
-      exact ⟨st', h1⟩
+      exact ⟨st', by rw [cleanDir_eq]; exact h1⟩
     · exact ⟨_, rfl⟩
   | writeModule => exact writeModule_total o w _ _ st h
 
